@@ -121,7 +121,7 @@ import "testing"
 func TestVerifReplayC01(t *testing.T) {
 	which := "@SYS@"
 	corpora := map[System][]string{}
-	sem := []string{"0", "1", "1.0", "1.0.0", "1.2", "1.2.3", "1.2.3-0", "1.2.3-1", "1.2.3-01", "1.2.3-a", "1.2.3-A", "1.2.3-a.1", "1.2.3-a.b", "1.2.3-a.1.2", "1.2.3-alpha", "1.2.3-alpha.1", "1.2.3-beta", "1.2.3-rc.1", "1.2.3+b", "1.2.3-a+b", "1.2.4", "1.10.0", "2.0.0", "2.0.0-0", "2.0.0-a.0", "2.0.0-a.00", "0.0.0-0", "1.2.3-1.a", "1.2.3-a.-", "1.2.3--", "1.2.3-Z", "1.2.3-z", "1.2.3-az", "1.2.3-aZ", "1.2.3-a.1.b"}
+	sem := []string{"0", "1", "1.0", "1.0.0", "1.2", "1.2.3", "1.2.3-0", "1.2.3-1", "1.2.3-01", "1.2.3-a", "1.2.3-A", "1.2.3-a.1", "1.2.3-a.b", "1.2.3-a.1.2", "1.2.3-alpha", "1.2.3-alpha.1", "1.2.3-beta", "1.2.3-rc.1", "1.2.3+b", "1.2.3-a+b", "1.2.4", "1.10.0", "2.0.0", "2.0.0-0", "2.0.0-a.0", "2.0.0-a.00", "0.0.0-0", "1.2.3-1.a", "1.2.3-a.-", "1.2.3--", "1.2.3-Z", "1.2.3-z", "1.2.3-az", "1.2.3-aZ", "1.2.3-a.1.b", "1.0.0-99999999999999999999", "1.0.0-100000000000000000000", "1.0.0-1z", "1.0.0-3000000011", "1.0.0-20000000011", "1.0.0-2147483648", "1.0.0-9"}
 	for _, s := range []System{DefaultSystem, Cargo, NPM, NuGet, Composer} {
 		corpora[s] = sem
 	}
@@ -132,8 +132,8 @@ func TestVerifReplayC01(t *testing.T) {
 	corpora[Go] = gosem
 	corpora[NuGet] = append(append([]string{}, sem...), "1.2.3.4", "1.2.3.4-a", "1.2.3.0", "1.0.0-ALPHA", "1.0.0-alpha", "1.0.0-Alpha.1", "1.0.0-alpha.01")
 	corpora[RubyGems] = []string{"0", "1", "1.0", "1.0.0", "1.0.0.0", "1.2", "1.2.3", "1.2.3.4", "1.0.a", "1.0.a.1", "1.0.a.01", "1.0.a.01.5", "1.0.a.1.5", "1.0.a.1.7", "1.0.a.00", "1.0.a.0", "1.0.a.0.1", "1.0.b", "1.0.a.b", "1.0.a1", "1.0.a01", "1.0.a10", "1.0.a2", "1.0-a", "1.0-1", "1.0.pre", "1.0.pre.1", "1.0.rc1", "1.0.rc.1", "1.0.rc.01", "1.0.0.a", "1.0.1", "1.1", "2", "1.0.a.1.0", "1.0.a.1.00", "1.0.a.1.0.b", "1.0.a.b.1", "1.0.a.b.01", "1.0.a.b.2"}
-	corpora[PyPI] = []string{"0", "1", "1.0", "1.0.0", "1.0.1", "1.1", "2", "1.0a1", "1.0a01", "1.0a2", "1.0b1", "1.0rc1", "1.0.dev1", "1.0.dev01", "1.0.post1", "1.0.post01", "1.0a1.dev1", "1.0a1.post1", "1.0.post1.dev1", "1!1.0", "1!0.5", "0!1.0", "1.0+abc", "1.0+abc.1", "1.0+abc.01", "1.0+1", "1.0+01", "1.0+a.b", "1.0+ABC", "1.0+1.a", "1.0+a.1", "1.0.0.0", "1.0alpha1", "1.0c1", "1.0-1", "1.0.post0", "1.0.dev0", "1.0a0", "01.0", "1.00", "1.0+abc.1.0", "1.0+0"}
-	corpora[Maven] = []string{"0", "1", "1.0", "1.0.0", "1.1", "1.01", "1.01.5", "1.1.5", "1.1.7", "1.0-alpha", "1.0-alpha-1", "1.0-alpha1", "1.0-alpha-01", "1.0-a1", "1.0-beta-1", "1.0-b1", "1.0-milestone-1", "1.0-m1", "1.0-rc1", "1.0-rc-1", "1.0-cr1", "1.0-SNAPSHOT", "1.0-alpha-1-SNAPSHOT", "1.0-ga", "1.0-final", "1.0-release", "1.0-sp", "1.0-sp-1", "1.0-sp1", "1.0-foo", "1.0-foo-1", "1.0-foo1", "1.0-1", "1.0-01", "2", "2.0", "2.1-rc1", "2.1", "1.0-bar", "1.0-xyz-2", "1-alpha", "1-SNAPSHOT", "1.0.0-alpha-1", "1.0.1-beta-2"}
+	corpora[PyPI] = []string{"0", "1", "1.0", "1.0.0", "1.0.1", "1.1", "2", "1.0a1", "1.0a01", "1.0a2", "1.0b1", "1.0rc1", "1.0.dev1", "1.0.dev01", "1.0.post1", "1.0.post01", "1.0a1.dev1", "1.0a1.post1", "1.0.post1.dev1", "1!1.0", "1!0.5", "0!1.0", "1.0+abc", "1.0+abc.1", "1.0+abc.01", "1.0+1", "1.0+01", "1.0+a.b", "1.0+ABC", "1.0+1.a", "1.0+a.1", "1.0.0.0", "1.0alpha1", "1.0c1", "1.0-1", "1.0.post0", "1.0.dev0", "1.0a0", "01.0", "1.00", "1.0+abc.1.0", "1.0+0", "1.0+40000000000000000000000", "1.0+5", "1.0+10", "1.0+18446744073709551616"}
+	corpora[Maven] = []string{"0", "1", "1.0", "1.0.0", "1.1", "1.01", "1.01.5", "1.1.5", "1.1.7", "1.0-alpha", "1.0-alpha-1", "1.0-alpha1", "1.0-alpha-01", "1.0-a1", "1.0-beta-1", "1.0-b1", "1.0-milestone-1", "1.0-m1", "1.0-rc1", "1.0-rc-1", "1.0-cr1", "1.0-SNAPSHOT", "1.0-alpha-1-SNAPSHOT", "1.0-ga", "1.0-final", "1.0-release", "1.0-sp", "1.0-sp-1", "1.0-sp1", "1.0-foo", "1.0-foo-1", "1.0-foo1", "1.0-1", "1.0-01", "2", "2.0", "2.1-rc1", "2.1", "1.0-bar", "1.0-xyz-2", "1-alpha", "1-SNAPSHOT", "1.0.0-alpha-1", "1.0.1-beta-2", "1.0-rc-1", "1.0-cr-2", "1.0-rc-2", "1.0-cr-1", "2.1-cr-SNAPSHOT", "2.1-rc-SNAPSHOT", "2.1-cr", "1.0-cr2", "1.0-rc2"}
 	names := map[string][]System{
 		"all": {DefaultSystem, Cargo, Go, Maven, NPM, NuGet, PyPI, RubyGems, Composer},
 		"semver": {DefaultSystem, Cargo, Go, NPM, NuGet, Composer},
